@@ -6,12 +6,8 @@ From RH Require Lex.LangLexer Lex.SynLexer.
 From RH Require Import Lex.LexGrammar Lex.Agree Lex.AgreeSweep Lex.AgreeSyn Lex.AgreeSynEol Lex.AgreeLang Lex.AgreeLangEol.
 Open Scope N_scope.
 
-Lemma known_difference_split s : known_difference s = false ->
-  has_colon_literal s = false /\ has_psl_word s = false /\ has_crlf_char s = false.
-Proof.
-  unfold known_difference. intros H. apply orb_false_iff in H as [H H3].
-  apply orb_false_iff in H as [H1 H2]. repeat split; assumption.
-Qed.
+Lemma known_difference_split s : known_difference s = false -> has_crlf_char s = false.
+Proof. unfold known_difference. trivial. Qed.
 Lemma in_quantifier_split s : in_quantifier s = true ->
   latin1 s = true /\ clean_lang s = true /\ clean_syn s = true /\ no_directive s = true /\ no_pragma s = true.
 Proof.
@@ -24,8 +20,7 @@ Theorem lexemes_agree_no_cr : forall s,
   lexemes_lang s = lexemes_syn s.
 Proof.
   intros s Q K NC. apply in_quantifier_split in Q as (L1 & CL & CS & ND & NP).
-  apply known_difference_split in K as (K1 & K3 & _).
-  rewrite (lang_is_spec s L1 CL ND NP NC K1). apply syn_is_spec; assumption.
+  rewrite (lang_is_spec s L1 CL ND NP NC). apply syn_is_spec; assumption.
 Qed.
 
 (* a clean input is exactly one that the reference splitter accepts, and the three splits coincide *)
@@ -35,8 +30,7 @@ Theorem lexemes_are_spec : forall s,
 Proof.
   intros s Q K NC. pose proof (lexemes_agree_no_cr s Q K NC) as E.
   apply in_quantifier_split in Q as (L1 & CL & CS & ND & NP).
-  apply known_difference_split in K as (K1 & K3 & _).
-  pose proof (lang_is_spec s L1 CL ND NP NC K1) as EL.
+  pose proof (lang_is_spec s L1 CL ND NP NC) as EL.
   unfold clean_lang, lexemes_lang in *. destruct (lang_result s) as [[c l]|]; [|discriminate CL].
   cbn [option_map snd] in *. exists l. split; [symmetry; exact EL|]. split; [reflexivity|]. symmetry. exact E.
 Qed.
@@ -55,8 +49,8 @@ Theorem lexemes_agree : forall s,
   in_quantifier s = true -> known_difference s = false -> lexemes_lang s = lexemes_syn s.
 Proof.
   intros s Q K. apply in_quantifier_split in Q as (L1 & CL & CS & ND & NP).
-  apply known_difference_split in K as (K1 & K3 & K4).
-  rewrite (lang_is_spec_eol s L1 CL ND NP K1 K4). apply syn_is_spec_eol; assumption.
+  apply known_difference_split in K as K4.
+  rewrite (lang_is_spec_eol s L1 CL ND NP K4). apply syn_is_spec_eol; assumption.
 Qed.
 Theorem lexemes_are_spec_eol : forall s,
   in_quantifier s = true -> known_difference s = false ->
@@ -65,8 +59,8 @@ Theorem lexemes_are_spec_eol : forall s,
 Proof.
   intros s Q K. pose proof (lexemes_agree s Q K) as E.
   apply in_quantifier_split in Q as (L1 & CL & CS & ND & NP).
-  apply known_difference_split in K as (K1 & K3 & K4).
-  pose proof (lang_is_spec_eol s L1 CL ND NP K1 K4) as EL.
+  apply known_difference_split in K as K4.
+  pose proof (lang_is_spec_eol s L1 CL ND NP K4) as EL.
   destruct (split_spec LangLexer.keywords_2008 s) as [l|] eqn:SP.
   - exists l. cbn [option_map] in EL. split; [reflexivity|]. split; [exact EL|]. rewrite <- E. exact EL.
   - exfalso. cbn [option_map] in EL. unfold clean_lang, lexemes_lang in *.
@@ -80,4 +74,14 @@ Definition ex_eol : list N :=
    48; 49; 34; 13; 39; 13; 13; 39].
 Lemma ex_eol_ok : in_quantifier ex_eol = true /\ known_difference ex_eol = false /\ no_cr ex_eol = false
   /\ length (match lexemes_lang ex_eol with Some l => l | None => [] end) = 15%nat.
+Proof. vm_compute. repeat split. Qed.
+
+(* a text with the two repaired differences: `x := 16:FF: & assume_guarantee'a' range 0 to 1:= 1` *)
+Definition ex_repaired : list N :=
+  [120; 32; 58; 61; 32; 49; 54; 58; 70; 70; 58; 32; 38; 32] ++ ASSUME_G ++
+  [39; 97; 39; 32; 114; 97; 110; 103; 101; 32; 48; 32; 116; 111; 32; 49; 58; 61; 32; 49].
+Lemma ex_repaired_ok : in_quantifier ex_repaired = true /\ known_difference ex_repaired = false
+  /\ lexemes_lang ex_repaired
+     = Some [[120]; [58; 61]; [49; 54; 58; 70; 70; 58]; [38]; ASSUME_G; [39; 97; 39]; [114; 97; 110; 103; 101]; [48];
+             [116; 111]; [49]; [58; 61]; [49]].
 Proof. vm_compute. repeat split. Qed.
